@@ -6,6 +6,8 @@ uniform(lo, hi) calls numpy.random.uniform(low=lo, high=hi, size=n); laplace(mea
 numpy.random.laplace(loc=mean, scale=scale, size=n); zero() returns zeros(n); functions.null returns 0;
 all draws use numpy's *global* legacy stream (reproducible after np.random.seed), each closure draws
 exactly once and returns that draw unchanged; parameter defaults are (0, 1), (0, 1), (0, 1).
+Also decided: the callable serves every n >= 0 whatever the integer type of n; no partial over a bound method of the global
+RandomState (ANM deep-copies its noise callables).
 Not decided: the distributional laws of numpy's samplers themselves (trusted).
 """
 from .common import *
